@@ -36,6 +36,27 @@ class Leaf:
         return self.env.get("_0", ("unknown", "unset"))
 
 
+class FBB(int):
+    """A block index inside an inlined callee: never equal to a block index of another function."""
+    def __new__(cls, v, fn, frame):
+        o = int.__new__(cls, v)
+        o.fn = fn
+        o.frame = frame
+        return o
+
+    def __eq__(self, o):
+        return isinstance(o, FBB) and o.frame == self.frame and int(o) == int(self)
+
+    def __ne__(self, o):
+        return not self.__eq__(o)
+
+    def __hash__(self):
+        return hash((self.frame, int(self)))
+
+
+_FRESH = [0]
+
+
 class PathEnum:
     def __init__(self, fn, facts, max_paths=20000, start_env=None, versioned=False, frame="", depth=0, inline_new=True):
         self.fn = fn
@@ -44,10 +65,24 @@ class PathEnum:
         self.frame = frame          # non-empty inside an inlined callee: renames its locals
         self.depth = depth
         self.cont = None            # continuation invoked at `return` of an inlined callee
-        self.inline_new = inline_new and not versioned
+        self.inline_new = inline_new
         self.max_paths = max_paths
         self.leaves = []
         self.start_env = start_env or {}
+        self.rootbind = {}          # inside a frame: parameter number -> place key in the root function's namespace
+
+    def _evkey(self, place):
+        """Place key used in events: inside an inlined callee, places reached through a `&mut` parameter are
+        named in the root function's namespace; the callee's own locals get the frame as a prefix."""
+        key = pp.place_s(place)
+        if not self.frame:
+            return key
+        l = place["local"]
+        tok = "(*_%d)" % l
+        base = self.rootbind.get(l)
+        if base is not None and tok in key:
+            return key.replace(tok, base)
+        return "%s:%s" % (self.frame, key)
 
     # ----- terms under a path environment
     def variant_discr(self, adt, variant):
@@ -195,11 +230,12 @@ class PathEnum:
         while True:
             if len(self.leaves) > self.max_paths:
                 raise AnalysisError("more than %d paths in %s" % (self.max_paths, fn.name))
+            ebb = FBB(bb, fn, self.frame) if self.frame else bb
             if bb in onpath:
-                self.leaves.append(Leaf("loop", env, conds, trace + [bb], events, bb))
+                self.leaves.append(Leaf("loop", env, conds, trace + [ebb], events, ebb))
                 return
             onpath = onpath | {bb}
-            trace = trace + [bb]
+            trace = trace + [ebb]
             b = fn.blocks[bb]
             for si, s in enumerate(b["stmts"]):
                 if s["k"] == "assign":
@@ -207,9 +243,9 @@ class PathEnum:
                     lv_term = self.read_place(env, s["place"]) if s["place"]["proj"] else None
                     self._assign(env, s["place"], t)
                     self._track_ref(env, s["place"], s["rv"])
-                    events = events + [("assign", bb, si, pp.place_s(s["place"]), t, lv_term)]
+                    events = events + [("assign", ebb, si, self._evkey(s["place"]), t, lv_term)]
                 elif s["k"] == "setdiscr":
-                    events = events + [("setdiscr", bb, si, pp.place_s(s["place"]), s["vidx"])]
+                    events = events + [("setdiscr", ebb, si, self._evkey(s["place"]), s["vidx"])]
             t = b["term"]
             k = t["k"]
             if k == "goto":
@@ -219,13 +255,13 @@ class PathEnum:
                 if self.cont is not None:
                     self.cont(env, conds, trace, events)
                     return
-                self.leaves.append(Leaf("return", env, conds, trace, events, bb))
+                self.leaves.append(Leaf("return", env, conds, trace, events, ebb))
                 return
             if k in ("unreachable", "resume", "terminate"):
-                self.leaves.append(Leaf(k, env, conds, trace, events, bb))
+                self.leaves.append(Leaf(k, env, conds, trace, events, ebb))
                 return
             if k == "drop":
-                events = events + [("drop", bb, None, pp.place_s(t["place"]), None)]
+                events = events + [("drop", ebb, None, self._evkey(t["place"]), None)]
                 bb = t["target"]
                 continue
             if k == "assert":
@@ -235,7 +271,7 @@ class PathEnum:
                 for key in ("len", "index", "l", "r", "arg"):
                     if key in m:
                         ops[key] = self.operand(env, m[key])
-                events = events + [("assert", bb, None, m["k"], c, {"op": m.get("op"), "ty": m.get("ty"), "ops": ops, "expected": t["expected"]})]
+                events = events + [("assert", ebb, None, m["k"], c, {"op": m.get("op"), "ty": m.get("ty"), "ops": ops, "expected": t["expected"]})]
                 bb = t["target"]
                 continue
             if k == "call":
@@ -247,11 +283,11 @@ class PathEnum:
                     path = callee_resolved(t)
                 else:
                     path = callee_path(t)
-                ct = ("call", path, args, bb)
+                ct = ("call", path, args, ebb)
                 if self.inline_new and self.depth < 3 and path in self.facts.fns and path not in known_fns() and t.get("target") is not None:
-                    self._inline(path, args, t, env, conds, trace, events, onpath, bb)
+                    self._inline(path, args, t, env, conds, trace, events, onpath, ebb)
                     return
-                events = events + [("call", bb, None, path, ct, t)]
+                events = events + [("call", ebb, None, path, ct, t)]
                 # `?` on a literal Ok/Err folds
                 if path == "std::ops::Try::branch" and args and args[0][0] == "agg" and args[0][2] in ("Ok", "Err") and adt_base(args[0][1]) == "std::result::Result":
                     if args[0][2] == "Ok":
@@ -282,7 +318,7 @@ class PathEnum:
                                     env[dk] = src
                                     break
                 if t.get("target") is None:
-                    self.leaves.append(Leaf("diverge", env, conds, trace, events, bb))
+                    self.leaves.append(Leaf("diverge", env, conds, trace, events, ebb))
                     return
                 bb = t["target"]
                 continue
@@ -301,51 +337,94 @@ class PathEnum:
                 vals = [tv for tv, _ in targets]
                 for tv, tb in targets:
                     if feasible(conds, d, ("eq", tv)):
-                        self._walk(tb, dict(env), conds + [(d, ("eq", tv), bb)], trace, events + [("cond", bb, None, d, ("eq", tv))], onpath)
+                        self._walk(tb, dict(env), conds + [(d, ("eq", tv), ebb)], trace, events + [("cond", ebb, None, d, ("eq", tv))], onpath)
                 if feasible(conds, d, ("ne", tuple(vals))):
                     ob = t["otherwise"]
                     # an `otherwise` that is just `unreachable` is not a path
                     if fn.blocks[ob]["term"]["k"] == "unreachable" and not fn.blocks[ob]["stmts"]:
                         return
-                    self._walk(ob, dict(env), conds + [(d, ("ne", tuple(vals)), bb)], trace, events + [("cond", bb, None, d, ("ne", tuple(vals)))], onpath)
+                    self._walk(ob, dict(env), conds + [(d, ("ne", tuple(vals)), ebb)], trace, events + [("cond", ebb, None, d, ("ne", tuple(vals)))], onpath)
                 return
             raise AnalysisError("unsupported terminator %s in %s" % (k, fn.loc(bb)))
+
+    def _base_of(self, env, actual):
+        """The place key (in this function's env) that a `&mut` actual argument points at, if it is tracked."""
+        if actual[0] in ("arg", "argv") and not self.frame and isinstance(actual[1], int) and 1 <= actual[1] <= self.fn.nargs:
+            return "(*_%d)" % actual[1]
+        if self.frame:
+            for j in range(1, self.fn.nargs + 1):
+                if env.get("_%d" % j) == actual:
+                    return "(*_%d)" % j
+        if actual[0] == "ref":
+            x = actual[1]
+            if x[0] == "var":
+                if not self.frame and isinstance(x[1], int):
+                    return "_%d" % x[1]
+                if self.frame and isinstance(x[1], str) and x[1].startswith(self.frame + ":") and x[1][len(self.frame) + 1:].isdigit():
+                    return "_%s" % x[1][len(self.frame) + 1:]
+            if x[0] == "field" and x[1][0] == "deref":
+                b = self._base_of(env, x[1][1])
+                if b is not None and b.startswith("(*_"):
+                    return "%s.%s" % (b, x[3])
+        return None
+
+    def _rootkey(self, base):
+        if base is None:
+            return None
+        if not self.frame:
+            return base
+        if base.startswith("(*_"):
+            num = base[3:].split(")")[0]
+            rb = self.rootbind.get(int(num)) if num.isdigit() else None
+            return None if rb is None else rb + base[len("(*_%s)" % num):]
+        return None
 
     def _inline(self, path, args, t, env, conds, trace, events, onpath, bb):
         """A crate-local function that did not exist when the rules were written (a helper introduced by a
         refactoring) is traversed, not treated as an opaque call: its body is walked with its parameters
-        bound to the actual argument terms, and the walk resumes in the caller at each of its returns."""
+        bound to the actual argument terms and to what the caller knows about the places they point at;
+        the walk resumes in the caller at each of its returns, with the callee's writes through `&mut`
+        parameters (and its invalidations by opaque calls) carried back."""
         callee = self.facts.fns[path]
         child = PathEnum(callee, self.facts, self.max_paths, None, self.versioned, frame=(self.frame + "/" if self.frame else "") + "%s@%d" % (path.rsplit("::", 1)[-1], bb), depth=self.depth + 1)
         child.leaves = self.leaves
         cenv = {}
+        bases = {}
         for i, a in enumerate(args):
-            cenv["_%d" % (i + 1)] = a
+            n = i + 1
+            if a[0] == "arg" and not self.frame and env.get("@ver:_%d" % a[1], 0):
+                a = ("argv", a[1], env["@ver:_%d" % a[1]])
+            cenv["_%d" % n] = a
+            base = self._base_of(env, args[i])
+            if base is None:
+                continue
+            bases[n] = base
+            rk = self._rootkey(base)
+            if rk is not None:
+                child.rootbind[n] = rk
+            tok = "(*_%d)" % n
+            for k, v in env.items():
+                if k == base:
+                    cenv[tok] = v
+                elif k.startswith(base + ".") or k.startswith(base + "["):
+                    cenv[tok + k[len(base):]] = v
         caller = self
         target = t["target"]
         dest = t["dest"]
 
         def cont(cenv2, conds2, trace2, events2):
             env2 = dict(env)
-            # effects through `&mut` parameters: writes to (*_k)... in the callee are writes to what _k points at
-            for k, v in cenv2.items():
-                if not k.startswith("(*_"):
-                    continue
-                num = k[3:].split(")")[0]
-                if not num.isdigit() or int(num) > len(args):
-                    continue
-                actual = args[int(num) - 1]
-                rest = k[len("(*_%s)" % num):]
-                base = None
-                if actual[0] in ("arg",) and 1 <= actual[1] <= caller.fn.nargs and not caller.frame:
-                    base = "(*_%d)" % actual[1]
-                elif actual[0] == "ref" and actual[1][0] == "var" and isinstance(actual[1][1], int):
-                    base = "_%d" % actual[1][1]
-                elif actual[0] == "ref" and actual[1][0] == "field" and actual[1][1] == ("deref", ("arg", 1)) and not caller.frame:
-                    base = "(*_1).%s" % actual[1][3]
-                if base is not None:
-                    caller._kill_prefix(env2, base + rest)
-                    env2[base + rest] = v
+            for n, base in bases.items():
+                tok = "(*_%d)" % n
+                # an opaque `&mut` call inside the callee invalidated what the parameter points at
+                if cenv2.get("@ver:_%d" % n, 0):
+                    caller._havoc_key(env2, base, path)
+                for k, v in cenv2.items():
+                    if k == tok or k.startswith(tok + ".") or k.startswith(tok + "["):
+                        key = base + k[len(tok):]
+                        if env2.get(key) is not v:
+                            caller._kill_prefix(env2, key)
+                            env2[key] = v
             ret = cenv2.get("_0", ("unknown", "unset"))
             caller._assign(env2, dest, ret)
             caller._walk(target, env2, conds2, trace2, events2 + [("inlined-return", bb, None, path, ret)], onpath)
@@ -382,12 +461,20 @@ class PathEnum:
                 key = "(*_%d)" % a["place"]["local"]  # the &mut argument itself is handed on
         if not key:
             return
+        self._havoc_key(env, key, path)
+
+    def _havoc_key(self, env, key, path):
         if key.startswith("(*_"):
             root = key[3:].split(")")[0]
             if key == "(*_%s)" % root:
                 env["@ver:_%s" % root] = env.get("@ver:_%s" % root, 0) + 1
                 for k in [k for k in env if k.startswith("(*_%s)" % root)]:
                     del env[k]
+                if self.frame and ("_%s" % root) in env:
+                    # inside a frame the parameter is bound to the caller's term: rebind it to a fresh one
+                    _FRESH[0] += 1
+                    cur = env["_%s" % root]
+                    env["_%s" % root] = ("argv", cur[1] if cur[0] in ("arg", "argv") else ("of", cur), "f%d" % _FRESH[0])
             else:
                 cur = env.get(key)
                 for k in [k for k in env if k.startswith(key + ".") or k.startswith(key + "[")]:
@@ -402,7 +489,7 @@ class PathEnum:
             base = ("var", key)
             if key.startswith("_") and key[1:].isdigit():
                 l = int(key[1:])
-                base = ("arg", l) if 1 <= l <= self.fn.nargs else ("var", l)
+                base = ("arg", l) if 1 <= l <= self.fn.nargs and not self.frame else ("var", ("%s:%d" % (self.frame, l)) if self.frame else l)
             env[key] = ("mut", base, path)
 
 
